@@ -116,7 +116,7 @@ def errStr (e : Err) : String :=
 def opBuild (toks : List String) : String :=
   match decStmts (toks.length + 1) toks with
   | some (ss, []) =>
-    match parseTop table ss [] with
+    match parseTop table (fun _ _ => false) ss with
     | .error e => errStr e
     | .ok mods => "ok" ++ String.join (mods.map fun m => (if m.isSub then " S " else " M ") ++ dumpNode m.node)
   | _ => "bad-op"
